@@ -6,6 +6,7 @@ loads/stores through instructions are C02; instruction fetch under CPSR.E = 1 is
 import random
 
 from .. import campaign as C
+from .. import isa_gen as G
 from .. import sweeps as S
 from ..words import limbs
 from .c18 import _dispatch
@@ -44,7 +45,18 @@ def fetch_task(task):
         thumb = rnd.random() < 0.5
         st, pc = S.prep(g, rnd, task, thumb, 0, k)
         st['cpsr'] = limbs(C.unlimbs(st['cpsr']) | 0x200)
-        w = (0x2000 | rnd.getrandbits(11)) if thumb else (0xE3A00000 | (rnd.getrandbits(4) << 12) | rnd.getrandbits(8))
+        r = rnd.random()
+        if not thumb:
+            w = (0xE3A00000 | (rnd.getrandbits(4) << 12) | rnd.getrandbits(8)) if r < 0.5 else \
+                ((G.fill(rnd.choice(G.ARM_DP)[1], rnd) & 0x0FFFFFFF) | 0xE0000000)
+        elif r < 0.4:
+            w = 0x2000 | rnd.getrandbits(11)
+        elif r < 0.7:
+            # 32-bit Thumb: both halfwords are fetched as instruction halfwords (MOVW: every bit of hw2 matters)
+            imm = rnd.getrandbits(16)
+            w = ((0xF240 | ((imm >> 11) & 1) << 10 | (imm >> 12)) << 16) | (((imm >> 8) & 7) << 12) | (rnd.randrange(13) << 8) | (imm & 0xFF)
+        else:
+            w = G.fill(rnd.choice(G.T32_DP)[1], rnd)
         C.put_instr(st, pc, w, thumb)
         g.add(st, {'n': 'Step'}, meta={'word': w, 'op': 'fetchE1'})
     return [g]
